@@ -267,6 +267,10 @@ func C07(c *core.Ctx) {
 			}
 			held = append(held, p)
 			c.Eval()
+			// the model's value of the stream at return time (the frame theorem says it stays that)
+			if p.err == nil && len(p.es) <= 40 && (p.kind == "packed" || p.kind == "marshal_packed") {
+				c.Corr("c07-value", "marshal_packed", []string{gen.EntriesDesc(p.es)}, "ok("+hx(p.snapStr)+")")
+			}
 			for j, q := range held {
 				if what, ok := q.stillIntact(); !ok {
 					c.Violation("judge-go", "c07-changed:"+q.kind, fmt.Sprintf("%s: value %d (%s) after call %d (%s) of the history [%s]", what, j, q.kind, i, p.kind, names),
